@@ -1,7 +1,7 @@
 (* C10 -- the overlay shows the overlayfs union of its layers and never modifies lowers.
    Only statements, closed by [exact]; proofs live in Proofs/Overlay*.v. *)
 From Coq Require Import List String NArith Bool.
-From FB Require Import Model.Overlay Proofs.OverlayInv Proofs.OverlayScan Proofs.OverlayRestart Proofs.OverlayReadOnly.
+From FB Require Import Model.Overlay Proofs.OverlayInv Proofs.OverlayScan Proofs.OverlayRestart Proofs.OverlayReadOnly Proofs.OverlayCoh Proofs.OverlayCohView Proofs.OverlayCohOps.
 Import ListNotations.
 Local Open Scope string_scope.
 Local Open Scope N_scope.
@@ -37,6 +37,28 @@ Theorem C10_readonly_history : forall ops, readonly_history ops = true -> forall
   let s' := run_dumps ops s in
   upper s' = upper s /\ lowers s' = lowers s /\ next_ino s' = next_ino s /\ vs s (root s') (root s).
 Proof. exact readonly_run. Qed.
+
+(* The coherence invariant between cache and disk (Proofs/OverlayCoh.v): every node reachable in the
+   cache sits at its own path in its layers with the whiteout/dir flags the disk has, starts with the
+   top-most candidate layer of that path, cuts the same directory stack as the candidates do, and -
+   once loaded - has a child exactly for the names some directory of that stack holds.
+   (a) it holds for a freshly imported overlay over any layer contents; *)
+Theorem C10_coherent_fresh : forall u ls nx, Forall layer_ok (u :: ls) -> Coherent (fresh (Some u) ls nx).
+Proof. exact fresh_coherent. Qed.
+(* (b) it is preserved by every operation of the proved list [coh_op]:
+       lookup, getattr, readdir, read, readlink, open(O_RDONLY), getxattr, listxattr, MKDIR
+   (mkdir includes: copy-up of the whole chain of parent directories, of a parent that is a file or a
+   symlink, removal of an upper whiteout, the opaque marker of the repaired do_mkdir), by the tree walk
+   of a dump, and hence by every history over those operations.  NOT yet in the list: create, mknod,
+   symlink, link, unlink, rmdir, open for writing, write, chmod, truncate, setxattr, removexattr. *)
+Theorem C10_coherent_step : forall o s, coh_op o = true -> Coherent s -> Coherent (run_op o s).
+Proof. exact coherent_step. Qed.
+Theorem C10_coherent_history : forall ops, coh_history ops = true -> forall s, Coherent s -> Coherent (run_dumps ops s).
+Proof. exact coherent_history. Qed.
+Example C10_coh_op_list :
+  coh_op (OMkdir ["a"; "b"] 493) = true /\ coh_op (OLookup ["a"]) = true /\ coh_op (OReaddir []) = true /\
+  coh_op (OCreate ["a"] 420) = false /\ coh_op (OUnlink ["a"]) = false /\ coh_op (OWrite ["a"] 0 []) = false.
+Proof. repeat split. Qed.
 
 (* Invariant of the node cache: a backing inode flagged in_upper_layer lives in layer 0 and only
    exists when there is an upper layer.  It holds for a freshly imported overlay ... *)
@@ -96,6 +118,9 @@ Print Assumptions C10_scan_is_merge.
 Print Assumptions C10_op_refines_refuted.
 Print Assumptions C10_op_refines_partial.
 Print Assumptions C10_readonly_history.
+Print Assumptions C10_coherent_fresh.
+Print Assumptions C10_coherent_step.
+Print Assumptions C10_coherent_history.
 Print Assumptions C10_fresh_invariant.
 Print Assumptions C10_lowers_untouched.
 Print Assumptions C10_lowers_untouched_history.
